@@ -314,6 +314,52 @@ theorem policy_enforced (d : Dir) (m : Maps) (q : QoS) (a b c e : UInt8) (hq : q
     simp only [hkey, hlk, hdec]
     cases (check (policyBucket d q) now len).2 <;> simp
 
+/-- `SetSubscriberPolicy` is `SetSubscriberQoS` with the values the name has in the policy table NOW. -/
+theorem setPolicy_eq (c : Ctl) (ip : Bytes) (name : String) (p : Policy) (h : AMap.lookup c.pols name = some p) :
+    c.setPolicy ip name = (c.setQoS (p.qos ip), true) := by
+  unfold Ctl.setPolicy; rw [h]
+
+/-- **Policy enforced, whole control plane.**  Define policy `A`, apply it to a subscriber by name, REdefine the
+    name as `B` (`AddPolicy` again), re-apply the name without removing the subscriber first: from then on every
+    IPv4 frame to/from the subscriber finds the bucket of `B` (rate, burst, priority, full) in both directions and
+    is judged by it — whatever the maps, the bookkeeping and the table held before. -/
+theorem policy_redefinition_enforced (d : Dir) (c : Ctl) (A B : Policy) (hn : A.name = B.name)
+    (a b x e : UInt8) (now : UInt64) (frame : Bytes) (len : UInt32)
+    (hf : SubscriberFrame d frame [a, b, x, e]) :
+    let c1 := { c with pols := addPolicy c.pols A }
+    let c2 := (c1.setPolicy [a, b, x, e] A.name).1
+    let c3 := { c2 with pols := addPolicy c2.pols B }
+    let c4 := (c3.setPolicy [a, b, x, e] A.name).1
+    ((AMap.lookup (c4.maps.get d) (keyBytes [a, b, x, e])).bind Bucket.decode) = some (policyBucket d (B.qos [a, b, x, e])) ∧
+    (runProg d c4.maps now frame len).2.ret =
+      (if (check (policyBucket d (B.qos [a, b, x, e])) now len).2 then TC_ACT_OK else TC_ACT_SHOT) := by
+  intro c1 c2 c3 c4
+  have h3 : AMap.lookup c3.pols A.name = some B := by
+    show AMap.lookup (addPolicy c2.pols B) A.name = some B
+    unfold addPolicy; rw [hn]; exact AMap.lookup_insert_self _ _ _
+  have h4 : c4 = c3.setQoS (B.qos [a, b, x, e]) := by
+    show (c3.setPolicy [a, b, x, e] A.name).1 = _
+    rw [setPolicy_eq c3 _ _ B h3]
+  have hm : c4.maps = setSubscriberQoS c3.maps (B.qos [a, b, x, e]) := by rw [h4]; rfl
+  rw [hm]
+  have := policy_enforced d c3.maps (B.qos [a, b, x, e]) a b x e rfl now frame len hf
+  exact ⟨this.2.1, this.2.2.1⟩
+
+/-- `RemoveSubscriberQoS` removes both entries: afterwards the subscriber's frames find no bucket (no limit). -/
+theorem removed_policy_not_enforced (d : Dir) (c : Ctl) (a b x e : UInt8) (now : UInt64) (frame : Bytes) (len : UInt32)
+    (hf : SubscriberFrame d frame [a, b, x, e]) :
+    (runProg d (c.remove [a, b, x, e]).maps now frame len).2 =
+      { ret := TC_ACT_OK, key := some (keyBytes [a, b, x, e], false) } := by
+  obtain ⟨hlen, hty, hip⟩ := hf
+  have hkey : lookupKey d frame = some (keyBytes [a, b, x, e]) := by
+    unfold lookupKey
+    rw [if_neg (by omega), if_neg (by simp [hty]), if_neg (by omega)]
+    cases d <;> simp only [] at hip ⊢ <;> rw [hip, keyBytes_eq] <;> rfl
+  unfold runProg
+  have hl : AMap.lookup ((c.remove [a, b, x, e]).maps.get d) (keyBytes [a, b, x, e]) = none := by
+    cases d <;> simp [Ctl.remove, removeSubscriberQoS, Maps.get]
+  simp only [hkey, hl]
+
 /-- … and it touches no other subscriber's entry. -/
 theorem policy_frame (d : Dir) (m : Maps) (q : QoS) (k : Bytes) (hk : k ≠ keyBytes q.ip) :
     AMap.lookup ((setSubscriberQoS m q).get d) k = AMap.lookup (m.get d) k := by
